@@ -51,9 +51,9 @@ func c05(r *Report) propMeta {
 
 	r.Rule("C05.R4", "E3+E4 bound and eligibility")
 	r.Gate("max-de-size", tK+"EnqueueDEs", CallEff("Keeper.SetDE"), []Cond{
-		{Op: "LSS", A: []string{"field:Params.MaxDESize"}, B: []string{"field:DEQueue.Tail", "field:DEQueue.Head", "binop:-", "binop:+", "len", "param:des"}, Want: false, Desc: "not (Tail - Head + len(des) > MaxDESize)"}}, GateOpts{FailIsError: true})
+		{Op: "LSS", A: []string{"field:Params.MaxDESize"}, B: []string{"field:DEQueue.Tail", "field:DEQueue.Head", "binop:-", "binop:+", "binops=+,-", "len", "param:des"}, Want: false, Desc: "not (Tail - Head + len(des) > MaxDESize)"}}, GateOpts{FailIsError: true})
 	r.Gate("max-de-size", tK+"EnqueueDEs", CallEff("Keeper.SetDEQueue"), []Cond{
-		{Op: "LSS", A: []string{"field:Params.MaxDESize"}, B: []string{"field:DEQueue.Tail", "field:DEQueue.Head", "binop:-", "binop:+", "len", "param:des"}, Want: false, Desc: "not (Tail - Head + len(des) > MaxDESize)"}}, GateOpts{})
+		{Op: "LSS", A: []string{"field:Params.MaxDESize"}, B: []string{"field:DEQueue.Tail", "field:DEQueue.Head", "binop:-", "binop:+", "binops=+,-", "len", "param:des"}, Want: false, Desc: "not (Tail - Head + len(des) > MaxDESize)"}}, GateOpts{})
 	r.ArgHas("enqueue-at-tail", tK+"EnqueueDEs", "Keeper.SetDE", 2, 1, "field:DEQueue.Tail", "binop:+")
 	r.Exists("tail-advanced", tK+"EnqueueDEs", StoreEff("DEQueue.Tail", "binop:+", "len", "param:des", "field:DEQueue.Tail"), 1)
 	r.Dominated("tail-advanced-before-save", tK+"EnqueueDEs", StoreEff("DEQueue.Tail", "binop:+", "len", "param:des"), CallEff("Keeper.SetDEQueue"))
